@@ -161,13 +161,13 @@ SegmentsM(ls) ==
 SegOf(S, j) == CASE j = 1 -> S.CLIENT_INITIALIZATION [] j = 2 -> S.REQUEST_INITIALIZATION
                  [] j = 3 -> S.REQUEST_EXECUTION [] j = 4 -> S.RESPONSE_HANDLING
 
-\* docstring embedding: the lines of FULL, blank lines at either end not counted
+\* docstring embedding: the lines of FULL in order.  Blank lines are not part of the comparison: the formatter of
+\* the emitted client file collapses runs of blank lines inside the docstring.
 \* (b = the blank token of the sequence: the line kind "blank", or text id 0 in recorded traces)
-TrimBlank(sq, b) == LET nb == {i \in 1..Len(sq) : sq[i] # b}
-                    IN IF nb = {} THEN <<>> ELSE SubSeq(sq, Min(nb), Max(nb))
+NonBlank(sq, b) == SelectSeq(sq, LAMBDA x : x # b)
 Between(sq, ls) == SubSeq(sq, StartLine(ls) + 1, EndLine(ls) - 1)
-Embed(sq, ls, b) == IF Mutant = "embed_with_tags" THEN TrimBlank(SubSeq(sq, StartLine(ls), EndLine(ls)), b)
-                    ELSE TrimBlank(Between(sq, ls), b)
+Embed(sq, ls, b) == IF Mutant = "embed_with_tags" THEN NonBlank(SubSeq(sq, StartLine(ls), EndLine(ls)), b)
+                    ELSE NonBlank(Between(sq, ls), b)
 
 \* the bounded grammar of sample files used for model checking
 Rep(x, n) == [i \in 1..n |-> x]
@@ -282,7 +282,7 @@ Inv_Index == \A e \in index : /\ \E x \in specs : x.tag = e.tag /\ e.client = Cl
                               /\ \A f \in index : f.tag = e.tag => f = e
 \* the docstring snippet is exactly the text between the tags
 Inv_Embed == stage \in {"run", "done"} =>
-  /\ embed = TrimBlank(SubSeq(lines, StartLine(lines) + 1, EndLine(lines) - 1), "blank")
+  /\ embed = NonBlank(SubSeq(lines, StartLine(lines) + 1, EndLine(lines) - 1), "blank")
   /\ "start" \notin Range(embed) /\ "end" \notin Range(embed)
 \* the sample runs to completion against a server that accepts the call
 Served == {i \in 1..Len(seen) : seen[i].svc = focus.svc /\ seen[i].rpc = focus.rpc /\ ReqOk(seen[i].pop, FKinds)}
